@@ -38,6 +38,9 @@ def build_script(sd, idx, override_seed=None, policy=None):
             "grid": {"dims": (2, 6) if big else (1, 3), "max_cells": 80 if big else 12},
             "graph": {"nodes": (10, 40) if big else (1, 6), "simple": False, "p_edge": 0.15 if big else 0.45}}
     desc = gen.rand_system(r, opts)
+    if r.random() < 0.5:
+        # some entries well above 100 molecules (normal-approximation branch of the redistribution)
+        desc["state"] = [x if r.random() < 0.5 else float(r.randint(100, 400)) for x in gen.state_of(desc)]
     rd = gen.Rendering(r, molecule_state=True)
     system = gen.render_system(desc, rd)
     state = gen.state_of(desc)
@@ -56,8 +59,14 @@ def build_script(sd, idx, override_seed=None, policy=None):
     ts = sorted(r.uniform(0, horizon) for _ in range(r.randint(1, 10))) + [horizon]
     ms = gen.mild_sys(r)
     usys = (ms[0], ms[1], "molecule")
-    sseed = r.randrange(2 ** 32) if override_seed is None else override_seed
-    isp = r.choice(["none", "none", "auto"]) if kind_ == "euler" else "none"
+    # seeds: mostly random, but also the edge values of the documented range (0 is a valid explicit seed)
+    sseed = (r.choice([0, 0, 1, 2 ** 31 - 1, 2 ** 31, 2 ** 32 - 1]) if r.random() < 0.3 else r.randrange(2 ** 32)) \
+        if override_seed is None else override_seed
+    # every initial-state mode on every engine kind (the processing draws random numbers too, also above the
+    # Poisson/normal switch at 100 molecules)
+    isp = r.choice(["none", "auto", "auto", "redist", "Poisson"])
+    if kind_ == "euler":
+        isp = r.choice(["none", "auto"])      # with an explicit stochastic resampling mode the seed legitimately matters
     script = simhelp.make_script(system, r, dt_si=dt, t_sample_si=[0.0] + ts, policy=pol, t_max_si=horizon,
                                  interval_si=horizon / r.randint(3, 30), usys=usys, isp=isp, seed=sseed)
     return desc, kind_, script, {"engine": kind_, "space": sp_kind, "cells": gen.ncells(desc["space"]),
@@ -260,7 +269,7 @@ def main():
                            " plus, in the thorough tier, dedicated CPU-hog processes"])
     run.require("executions_compared", "run_calls_that_advanced", "stored_script_reruns", "euler_seed_pairs")
     thorough = tier() == "thorough"
-    nscripts = 400 if thorough else 48
+    nscripts = 400 if thorough else 96
     nvar = 16 if thorough else 8
     sd = seed()
     refs = [{"seed": sd, "idx": i} for i in range(nscripts)]
